@@ -8,6 +8,8 @@ SCOPE = "promise::claim/set_value/set_exception/drop/~promise/move ctor, future:
 ASSUMPTIONS = ["the destructor of the shared promise object runs after every call on that object has returned (C++ object lifetime)",
                "interleaving at the granularity of the hook points (each atomic operation on promise::_owner / future::_awaiter is its own step); sequentially consistent"]
 def gen(seed, tier): return cellcommon.gen(seed, tier, "resolvers")
+def gen_prom(seed, tier): return cellcommon.gen_prom(seed, tier)
 nontrivial = cellcommon.nontrivial
 signature = cellcommon.signature
-PARTS = [{"name": "ctl_cell", "harness": "ctl_cell.cpp", "gen": gen, "no_shrink": False, "timeout_case": 10}]
+PARTS = [{"name": "ctl_cell", "harness": "ctl_cell.cpp", "gen": gen, "no_shrink": False, "timeout_case": 10},
+         {"name": "seq_prom", "harness": "seq_prom.cpp", "gen": gen_prom, "no_shrink": False, "timeout_case": 10}]
